@@ -234,6 +234,7 @@ pub static GUARD_BLOCKS: std::sync::atomic::AtomicU64 = std::sync::atomic::Atomi
 
 thread_local! {
     static TL_OVERRUNS: Cell<u64> = const { Cell::new(0) };
+    static TL_BLOCKS: Cell<u64> = const { Cell::new(0) };
 }
 
 /// Overruns found so far when blocks were released *on this thread*.
@@ -282,7 +283,17 @@ unsafe fn guard_alloc(layout: Layout, zeroed: bool) -> *mut u8 {
         std::ptr::write_bytes(user, FRESH, layout.size());
     }
     std::ptr::write_bytes(user.add(layout.size()), TAIL_BYTE, TAIL);
-    GUARD_BLOCKS.fetch_add(1, std::sync::atomic::Ordering::Relaxed);
+    // counted per thread and added to the shared counter every 4,096 blocks (one shared atomic
+    // touched by every allocation of every thread would serialise the workers)
+    let _ = TL_BLOCKS.try_with(|c| {
+        let v = c.get() + 1;
+        if v >= 4_096 {
+            GUARD_BLOCKS.fetch_add(v, std::sync::atomic::Ordering::Relaxed);
+            c.set(0);
+        } else {
+            c.set(v);
+        }
+    });
     user
 }
 
